@@ -190,7 +190,7 @@ pub fn run(ctx: &Ctx, rec: &mut Rec) {
     // hostile point encodings: both engines must give the same verdict (and the same point)
     rec.declare_form("hostile encodings");
     rec.declare_form("cofactor clearing");
-    for cl in ["coordinate + p", "coordinate = p", "flag bits", "bit flip", "x+1 (off curve / other point)", "random bytes", "truncated", "on curve outside subgroup", "related to a validated point", "unvalidated mode"] {
+    for cl in ["coordinate + p", "coordinate = p", "flag bits", "bit flip", "x+1 (off curve / other point)", "random bytes", "truncated", "on curve outside subgroup", "related to a validated point", "zero-component point", "unvalidated mode"] {
         rec.declare_class(&format!("enc:{cl}"));
     }
     par(rec, |w, n, rec| {
@@ -278,6 +278,66 @@ pub fn run(ctx: &Ctx, rec: &mut Rec) {
                     }
                 }
             }
+            // twist-curve points with a vanishing coordinate component (y.c1 = 0, y.c0 = 0, x.c1 = 0, x.c0 = 0):
+            // sign conventions and lexicographic comparisons in Fp2 are decided by the second component only
+            // when the first one ties. They are solved for in the reference field: with x = u + v i,
+            // Im(x^3 + b) = 0 fixes u^2 for a chosen v, the real part then has to be a square (times beta).
+            if rep % 2 == 0 {
+                use ark_ec::short_weierstrass::{Affine as SW, SWCurveConfig};
+                use ark_ff::{Field, Fp2Config};
+                type RefG2Cfg = <<Refe as Pairing>::G2Affine as AffineRepr>::Config;
+                type RFp = <Refe as Pairing>::BaseField;
+                type RFp2 = <<Refe as Pairing>::G2Affine as AffineRepr>::BaseField;
+                let beta: RFp = <ark_bls12_377::Fq2Config as Fp2Config>::NONRESIDUE;
+                let bcoef: RFp2 = <RefG2Cfg as SWCurveConfig>::COEFF_B;
+                let three = RFp::from(3u64);
+                let mut made = 0;
+                for _attempt in 0..64 {
+                    if made >= 2 {
+                        break;
+                    }
+                    let v = RFp::rand(&mut rng);
+                    if v.is_zero() {
+                        continue;
+                    }
+                    // 3 u^2 v + beta v^3 + b1 = 0
+                    let u2 = -(beta * v * v * v + bcoef.c1) * (three * v).inverse().unwrap();
+                    let Some(u) = u2.sqrt() else { continue };
+                    let real = u * u * u + three * beta * u * v * v + bcoef.c0;
+                    let x = RFp2::new(u, v);
+                    if let Some(c0) = real.sqrt() {
+                        for y0 in [c0, -c0] {
+                            let pt = SW::<RefG2Cfg>::new_unchecked(x, RFp2::new(y0, RFp::from(0u64)));
+                            if pt.is_on_curve() {
+                                cases.push(("zero-component point", true, Compress::Yes, ser(&pt, Compress::Yes)));
+                                cases.push(("zero-component point", true, Compress::No, ser(&pt, Compress::No)));
+                                made += 1;
+                            }
+                        }
+                    }
+                    if let Some(c1) = (real * beta.inverse().unwrap()).sqrt() {
+                        for y1 in [c1, -c1] {
+                            let pt = SW::<RefG2Cfg>::new_unchecked(x, RFp2::new(RFp::from(0u64), y1));
+                            if pt.is_on_curve() {
+                                cases.push(("zero-component point", true, Compress::Yes, ser(&pt, Compress::Yes)));
+                                cases.push(("zero-component point", true, Compress::No, ser(&pt, Compress::No)));
+                                made += 1;
+                            }
+                        }
+                    }
+                }
+                for which in 0..2 {
+                    for _attempt in 0..32 {
+                        let t = RFp::rand(&mut rng);
+                        let x = if which == 0 { RFp2::new(t, RFp::from(0u64)) } else { RFp2::new(RFp::from(0u64), t) };
+                        if let Some(pt) = SW::<RefG2Cfg>::get_point_from_x_unchecked(x, rep % 4 == 0) {
+                            cases.push(("zero-component point", true, Compress::Yes, ser(&pt, Compress::Yes)));
+                            cases.push(("zero-component point", true, Compress::No, ser(&pt, Compress::No)));
+                            break;
+                        }
+                    }
+                }
+            }
             // a G1 point on the curve but (almost surely) outside the prime-order subgroup
             {
                 use ark_ec::short_weierstrass::Affine as SW;
@@ -333,7 +393,7 @@ pub fn run(ctx: &Ctx, rec: &mut Rec) {
             }
             // unvalidated modes: bytes of honest points and of (coordinate + p) variants through
             // Validate::No must still get the same verdict / value from both engines
-            let unchecked_cases: Vec<(bool, Compress, Vec<u8>)> = cases.iter().filter(|c| c.0 == "coordinate + p" || c.0 == "bit flip").map(|c| (c.1, c.2, c.3.clone())).collect();
+            let unchecked_cases: Vec<(bool, Compress, Vec<u8>)> = cases.iter().filter(|c| c.0 == "coordinate + p" || c.0 == "bit flip" || c.0 == "zero-component point" || c.0 == "on curve outside subgroup").map(|c| (c.1, c.2, c.3.clone())).collect();
             for (is_g2, c, bytes) in unchecked_cases {
                 rec.form("hostile encodings");
                 rec.class("enc:unvalidated mode");
